@@ -165,7 +165,7 @@ func c19CheckAPIs(p *core.Pkg, atoms []*core.Atom, opt string, apis []string) c1
 		return res
 	}
 	var refs []map[string]interface{}
-	for _, ro := range c19RefOpts(opt, p.SchemaName) {
+	for _, ro := range c19RefOpts(opt, p.BaseSchema()) {
 		d, err := rs.RefJSON(m, ro)
 		if err != nil {
 			res.sig, res.detail = "reference-error:", err.Error()
@@ -184,7 +184,7 @@ func c19CheckAPIs(p *core.Pkg, atoms []*core.Atom, opt string, apis []string) c1
 		}
 	}
 	for _, api := range apis {
-		j, err := c19Render(t.(ygot.GoStruct), api, opt, p.SchemaName)
+		j, err := c19Render(t.(ygot.GoStruct), api, opt, p.BaseSchema())
 		if err != nil {
 			res.sig, res.detail = "render-error:", fmt.Sprintf("%s/%s failed: %v", api, opt, err)
 			return res
@@ -456,20 +456,20 @@ func runC19(c *core.Ctx) {
 		"module name of identityref values when RewriteModuleNames has a rule for the identity's module: both readings accepted, counted",
 		"PreferShadowPath (renders other paths than the Model holds; not part of the statement)",
 	})
-	for _, p := range core.Packages() {
+	for _, p := range core.PackagesWithRev() {
 		if _, err := c19Schema(p); err != nil {
 			c.R.Violation("reference-error:schema", err.Error(), nil)
 			return
 		}
 	}
-	exploreAll(c, core.Packages(), k, nil, func(sp *core.Space, st core.State) {
+	exploreAll(c, core.PackagesWithRev(), k, nil, func(sp *core.Space, st core.State) {
 		atoms := sp.SeqAtoms(st)
 		opts, apis := c19Opts, c19APIs
 		if len(st.Seq) == 3 {
 			// thorough, third level: the two settings that exercise every naming rule, one entry point
 			// (the three entry points share structJSON; they are all compared on levels 0-2)
 			opts, apis = []string{"append"}, []string{"marshal"}
-			if sp.P.SchemaName == "vt" {
+			if sp.P.BaseSchema() == "vt" {
 				opts = []string{"append", "rewrite"} // voc has a single module: its rewrite setting only renames it
 			}
 		}
@@ -499,7 +499,7 @@ func runC19(c *core.Ctx) {
 	}
 	var jobs []job
 	nt := map[string]int{}
-	for _, p := range core.Packages() {
+	for _, p := range core.PackagesWithRev() {
 		rs, _ := c19Schema(p)
 		for _, tg := range c19Targets(p, rs) {
 			nt[p.Name+"/"+tg.kind]++
@@ -548,7 +548,7 @@ func replayC19(c *core.Ctx, raw []byte) (bool, string) {
 	c19VerifDir = c.VerifDir
 	var sc c19SweepCase
 	if err := json.Unmarshal(raw, &sc); err == nil && sc.Base != "" {
-		p := core.PkgByName(sc.Pkg)
+		p := core.AnyPkgByName(sc.Pkg)
 		if p == nil {
 			return false, "unknown package"
 		}
@@ -566,7 +566,7 @@ func replayC19(c *core.Ctx, raw []byte) (bool, string) {
 	if err := json.Unmarshal(raw, &tc); err != nil {
 		return false, err.Error()
 	}
-	p := core.PkgByName(tc.Pkg)
+	p := core.AnyPkgByName(tc.Pkg)
 	if p == nil {
 		return false, "unknown package"
 	}
